@@ -1,13 +1,19 @@
 import Mastverif.Lemmas.Store
+import Mastverif.Lemmas.Names
 /-!
-# C08 — content addressing, deterministic encoding (property theorems, in progress)
+# C08 — content addressing, deterministic encoding (property theorems)
 
 * `C08_name_is_hash_of_bytes`: every pair a flush writes is (hash of the bytes, the bytes);
 * `C08_bytes_depend_on_entries_and_child_names_only`: the bytes (and so the name) of a node are
   a function of its entries and of its children's names — nothing else about the in-memory
   representation (residency, dirtiness, how the node came to be) enters;
-* the converse direction (equal root names ⇒ equal contents, under the no-collision hypothesis
-  for the hash on the encodings in play) is on the work list.
+* `C08_same_root_name_same_contents`: versions with the same root name have identical contents
+  (hence different contents ⇒ different root names), under the explicit hypothesis that no two
+  different nodes in play share a name (`NoCollision`: collision-freeness of BLAKE2b-256 on the
+  encodings in play together with injectivity of the encoder) and that keys / values marshal
+  injectively;
+* `C08_encoder_injective`: the compact binary encoder is injective on decodable nodes, so
+  `NoCollision` for that format is a statement about the hash alone.
 Tie: families `persist`, `map`, `format` recompute every stored name with the model's own
 BLAKE2b-256 + base64url and every byte string with `encBin` / `encJson`.
 -/
@@ -32,6 +38,18 @@ theorem C08_bytes_depend_on_entries_and_child_names_only (e : Enc) (t1 t2 : T)
   · simp only [nodeBytes]; rw [← rowB_erase e t1, ← rowB_erase e t2, h]
   · rw [← nodeName_erase e t1, ← nodeName_erase e t2, h]
 
+theorem C08_same_root_name_same_contents (e : Enc) (hnc : NoCollision e)
+    (hk : Function.Injective e.keyB) (hv : Function.Injective e.valB) (t1 t2 : T)
+    (h : T.nodeName e t1 = T.nodeName e t2) : T.toList t1 = T.toList t2 :=
+  T.name_eq_toList e hnc hk hv t1 t2 h
+
+theorem C08_encoder_injective (n1 n2 : NodeB) (h1 : Codec.NodeOK n1) (h2 : Codec.NodeOK n2)
+    (l1 : n1.links.length = n1.keys.length + 1) (l2 : n2.links.length = n2.keys.length + 1)
+    (h : Codec.encBin n1 = Codec.encBin n2) : n1 = n2 :=
+  Codec.encBin_injective n1 n2 h1 h2 l1 l2 h
+
 end Mast.Tree
+#print axioms Mast.Tree.C08_same_root_name_same_contents
+#print axioms Mast.Tree.C08_encoder_injective
 #print axioms Mast.Tree.C08_name_is_hash_of_bytes
 #print axioms Mast.Tree.C08_bytes_depend_on_entries_and_child_names_only
